@@ -2,11 +2,11 @@
 from .. import core, pure
 
 
-def cfg(maxfiles, maxlen, export, names="MCNames"):
+def cfg(maxfiles, maxlen, export, names="MCNames", alphabet="97, 10, 13"):
     inv = "NoOverlap Injective RoundTrip UnknownOutside NextAbove RefinesAbs" + (" Export" if export else "")
-    return ("CONSTANTS Names <- %s  Contents <- AllContents  MaxFiles = %d  MaxLen = %d  Alphabet = {97, 10, 13}  DoExport = %s\n"
+    return ("CONSTANTS Names <- %s  Contents <- AllContents  MaxFiles = %d  MaxLen = %d  Alphabet = {%s}  DoExport = %s\n"
             "INIT Init\nNEXT Next\nINVARIANTS %s\nPROPERTIES Monotone RefinesAbsStep\nCHECK_DEADLOCK FALSE\n" % (
-                names, maxfiles, maxlen, str(export).upper(), inv))
+                names, maxfiles, maxlen, alphabet, str(export).upper(), inv))
 
 
 def apalache_obligations(r):
@@ -41,6 +41,8 @@ def run(r):
     plans = [(2, 3, "2x3")] + ([(3, 2, "3x2"), (2, 4, "2x4")] if th else [(3, 1, "3x1")])
     for (mf, ml, tag) in plans:
         res.append(pure.model_to_code(r, "FileSetMC", cfg(mf, ml, True), "fileset", tag))
+    # columns are BYTE columns: one file over an alphabet with the two bytes of a multi-byte rune (0xC3 0xA9)
+    res.append(pure.model_to_code(r, "FileSetMC", cfg(1, 5 if th else 4, True, alphabet="97, 10, 195, 169"), "fileset", "1xU"))
     r.extra["apalache"] = apalache_obligations(r)
     tr = pure.code_to_model(r, "fileset", "FileSetTrace", "FileSetTrace.cfg", 8 if th else 3,
                             dict(n=12 if th else 5, maxfiles=8, maxlen=300 if th else 120),
